@@ -54,6 +54,16 @@ PKBins = P.make_peer(KBinsDiscretizer)
 PKNNReg = P.make_peer(KNeighborsRegressor)
 
 
+class PerplexityPCA(PPCA):
+    """Stands for TSNE (which is far too slow here): a transformer with
+    ``fit_transform`` and a ``perplexity`` parameter that PredictableTSNE has
+    to lower when the training set is small."""
+
+    def __init__(self, n_components=1, perplexity=30.0):
+        PPCA.__init__(self, n_components=n_components)
+        self.perplexity = perplexity
+
+
 # ---------------------------------------------------------------------------
 # data
 
@@ -181,6 +191,12 @@ class Spec:
 
     def data(self, ch, label="A"):
         return draw_data(ch, self.kind, label, allow_weights=self.weights, n_min=self.n_min)
+
+    def finalize(self, cfg, data):
+        """Completes a configuration with values that depend on the training
+        data (an array of initial centres, ...).  Called by the checks that
+        work on a single training set."""
+        return cfg
 
     def observables(self, est, cfg):
         return [m for m in self.methods if hasattr(est, m[0])]
@@ -337,11 +353,20 @@ class SKMeansL1L2(Spec):
             "random_state": ch.choice("w", [0, 3, None], "rs"),
             "n_init": ch.integer("w", 1, 3, "n_init"),
             "copy_x": ch.weighted("w", [(True, 4), (False, 1)], "copy_x"),
-            "init": ch.choice("w", ["k-means++", "random"], "init"),
+            "init": ch.choice("w", ["k-means++", "random", "array"], "init"),
         }
 
+    def finalize(self, cfg, data):
+        if cfg.get("init") == "array":
+            # explicit initial centres: the first k training rows
+            cfg["init_array"] = numpy.array(data.X[: cfg["k"]], dtype=float, copy=True)
+        return cfg
+
     def build(self, cfg):
-        return KMeansL1L2(n_clusters=cfg["k"], norm=cfg["norm"], random_state=cfg["random_state"], n_init=cfg["n_init"], copy_x=cfg["copy_x"], init=cfg["init"], max_iter=30)
+        init = cfg["init"]
+        if init == "array":
+            init = cfg["init_array"].copy() if "init_array" in cfg else "k-means++"
+        return KMeansL1L2(n_clusters=cfg["k"], norm=cfg["norm"], random_state=cfg["random_state"], n_init=cfg["n_init"], copy_x=cfg["copy_x"], init=init, max_iter=30)
 
     def exempt_input_write(self, cfg):
         return not cfg["copy_x"]
@@ -500,13 +525,14 @@ class SPredictableTSNE(Spec):
             "estimator": ch.choice("w", ["linreg", "knn"], "est"),
             "normalize": ch.choice("w", [True, False], "normalize"),
             "keep": ch.choice("w", [False, True], "keep"),
+            "perplexity": ch.choice("w", [None, 30.0, 5.0], "perplexity"),
         }
 
     def build(self, cfg):
         est = {"linreg": PLinReg(), "knn": PKNNReg(n_neighbors=2)}[cfg["estimator"]]
         return PredictableTSNE(
             normalizer=PScaler() if cfg["normalizer"] else None,
-            transformer=PPCA(n_components=1),
+            transformer=PPCA(n_components=1) if cfg.get("perplexity") is None else PerplexityPCA(n_components=1, perplexity=cfg["perplexity"]),
             estimator=est,
             normalize=cfg["normalize"],
             keep_tsne_outputs=cfg["keep"],
